@@ -44,6 +44,19 @@ def main():
     with open(os.path.join(C.VERIF, "coverage", "summary.txt"), "w") as fh:
         fh.write("# statement coverage of the library under the correspondence cases (%s tier, seed 1, %d cases)\n" % (tier, len(lines)))
         fh.write("\n".join(rows) + "\n")
+    # uncovered blocks of the library, merged per file
+    unc = {}
+    for l in open(prof):
+        if l.startswith("mode:") or "export_verif" in l or "algobra-verif/harness" in l:
+            continue
+        loc, nst, cnt = l.rsplit(" ", 2)
+        if int(cnt) == 0:
+            f, rng_ = loc.split(":")
+            unc.setdefault(f.replace("github.com/ReneBoedker/algobra/", ""), set()).add(rng_.split(",")[0].split(".")[0] + "-" + rng_.split(",")[1].split(".")[0])
+    with open(os.path.join(C.VERIF, "coverage", "uncovered.txt"), "w") as fh:
+        fh.write("# blocks of the library never executed by the correspondence cases (file: startline-endline ...)\n")
+        for f in sorted(unc):
+            fh.write("%s: %s\n" % (f, " ".join(sorted(unc[f], key=lambda r: int(r.split("-")[0])))))
     print("cases:", len(lines)); print(rows[-1]); print("functions below 100%%: %d of %d" % (len(low), len(rows) - 1))
     shutil.rmtree(work, ignore_errors=True)
 
